@@ -40,8 +40,9 @@ REACH_OWNER = {
     'AsyncListener.datagram_received': 'C15', 'AsyncListener._process_datagram_at_time': 'C15/C16', 'AsyncListener.handle_query_or_defer': 'C15/C12',
     'AsyncListener._respond_query': 'C15/C12', 'AsyncListener._cancel_any_timers_for_addr': 'C12 (inlined)',
     'QueryHandler.handle_assembled_query': 'C15/C11/C12', 'QueryHandler.async_response': 'C11', 'QueryHandler._get_answer_strategies': 'C03',
-    'QueryHandler._answer_question': 'UNVERIFIED (abstracted in C11)', 'QueryHandler._add_pointer_answers': 'UNVERIFIED', 'QueryHandler._add_address_answers': 'UNVERIFIED',
-    'QueryHandler._add_service_type_enumeration_query_answers': 'UNVERIFIED',
+    'QueryHandler._answer_question': 'C03', 'QueryHandler._add_pointer_answers': 'C03',
+    'QueryHandler._add_address_answers': 'C03',
+    'QueryHandler._add_service_type_enumeration_query_answers': 'C03',
     'RecordManager.async_updates_from_response': 'C06', 'RecordManager.async_updates': 'C06', 'RecordManager.async_updates_complete': 'C06',
     'DNSIncoming.__init__': 'C02', 'DNSIncoming.answers': 'C02', 'DNSIncoming.is_query': 'C02 (one line)', 'DNSIncoming.has_qu_question': 'C02 (one line)',
     'MulticastOutgoingQueue.async_add': 'C12', 'Zeroconf.async_send': 'C17 (done guard) / C14 (packets)', 'construct_outgoing_unicast_answers': 'C11',
@@ -135,6 +136,34 @@ def configure(ctx, R):
 
 
 NO_CONCRETE = {'*'}
+# only when a ServiceBrowser is running: its listener entry points (thorough tier; the C04 obligations take ~5 min)
+INHERIT_THOROUGH = [('C04', ['_ServiceBrowserBase._enqueue_callback', '_ServiceBrowserBase.async_update_records',
+                             '_ServiceBrowserBase.async_update_records_complete'])]
+# functions on the path of a datagram whose contracts (with their raises-nothing obligations: index, key, None, callee preconditions)
+# belong to other checks: verified again in this run, so a change inside one of them is reported here as well
+INHERIT = [
+    ('C02', ['DNSIncoming._read_header', 'DNSIncoming._decode_labels_at_offset', 'DNSIncoming._read_name', 'DNSIncoming._read_string',
+             'DNSIncoming._read_character_string', 'DNSIncoming._read_record', 'DNSIncoming._read_questions', 'DNSIncoming._read_others',
+             'DNSIncoming._initial_parse', 'DNSIncoming.__init__', 'DNSIncoming.answers']),
+    ('C06', ['RecordManager.async_updates_from_response', 'RecordManager.async_updates', 'RecordManager.async_updates_complete',
+             'RecordManager._async_update_matching_records']),
+    ('C05', ['DNSCache.async_add_records', 'DNSCache._async_add', 'DNSCache.async_remove_records', 'DNSCache._async_remove', '_remove_key',
+             'DNSCache.async_get_unique', 'DNSCache.async_mark_unique_records_older_than_1s_to_expire', 'DNSRecord.is_expired',
+             'DNSRecord.reset_ttl', 'DNSRecord.set_created_ttl']),
+    ('C18', ['ServiceInfo.async_update_records', 'ServiceInfo._process_record_threadsafe', 'get_ip_address_object_from_record',
+             'ip_bytes_and_scope_to_address']),
+    ('C12', ['_QueryResponse.add_mcast_question_response', '_QueryResponse._has_mcast_record_in_last_second', '_QueryResponse.answers',
+             'MulticastOutgoingQueue.async_add']),
+    ('C11', ['QueryHandler.async_response', '_QueryResponse._has_mcast_within_one_quarter_ttl', '_QueryResponse.add_qu_question_response',
+             '_QueryResponse.add_ucast_question_response', 'construct_outgoing_multicast_answers', 'construct_outgoing_unicast_answers',
+             '_add_answers_additionals', 'DNSRecord.is_recent']),
+    ('C13', ['QuestionHistory.add_question_at_time']),
+    ('C03', ['QueryHandler._get_answer_strategies', 'QueryHandler._answer_question', 'QueryHandler._add_pointer_answers',
+             'QueryHandler._add_service_type_enumeration_query_answers', 'QueryHandler._add_address_answers', 'DNSRRSet.suppresses', 'DNSRRSet._get_lookup',
+             'ServiceRegistry.async_get_info_name', 'ServiceRegistry.async_get_types', 'ServiceRegistry.async_get_infos_type',
+             'ServiceRegistry.async_get_infos_server', 'ServiceRegistry._async_get_by_index', 'ServiceInfo._dns_pointer',
+             'ServiceInfo._dns_service', 'ServiceInfo._dns_text']),
+]
 
 
 def static_checks(repo):
